@@ -481,7 +481,8 @@ func (d *SigGrid) Eval(x *Exec, root *Node, gc GridCase) GridResult {
 		where["method"] = "submitObjectPut"
 		if sub.Halt && !truthOK {
 			vs = append(vs, Viol("accepted-without-rep-distinct-members", fmt.Sprintf("submitObjectPut halted for %s", gc.Name), where))
-		} else if sub.Halt != accepted {
+		} else if sub.Halt && !accepted || honest && !sub.Halt {
+			// "and therefore submitObjectPut" is an only-if; that it also succeeds is demanded for the honest matrix alone
 			vs = append(vs, Viol("submit-verify-disagree", fmt.Sprintf("submitObjectPut halt=%v (%s) but verifyPlacementSignatures=%v for %s", sub.Halt, sub.Fault, accepted, gc.Name), where))
 		}
 	}
